@@ -5,7 +5,7 @@ LEVEL_TEXT = ("C20: breakdown rows = sorted multiset of the per-CPU breakdown va
 
 MANIFEST = dict(
     level_text=LEVEL_TEXT,
-    level_note=("Composition of four families, each one operation of the real code from ANY state of a stated invariant: "
+    level_note=("Composition of five families, each one operation of the real code from ANY state of a stated invariant: "
                 "(1) sort_replace on every sorted int64 array of n<=6 (8 thorough) rows, every position and new value; "
                 "(2) sort_cb_input for n<=4 (5) CPUs: rows == sort(values) and exactly the changed rows are written; "
                 "(3) the breakdown muxes of nOS-V and Nanos6 (connect_cpu, select_tr, select_idle, mux.c) against a ghost patch bay: "
@@ -13,10 +13,16 @@ MANIFEST = dict(
                 "for every write pattern of {subsystem, task type, idle} of the tier (all 16 in thorough) over value classes "
                 "{null, compared constant, one representative other} and any task type; "
                 "(4) create/connect wiring through recorders (one sort input per physical CPU in list order, row i = output i, "
-                "rows = ncpus - nlooms, flags SKIPDUP|ZERO).  Reported, not claimed: TT_GAP (task type alone toggling null/non-null "
+                "rows = ncpus - nlooms, flags SKIPDUP|ZERO); "
+                "(5) the chain END TO END for the event in which the running thread of a CPU changes: the three CPU views written in the order of the "
+                "real enum <model>_chan, real breakdown muxes + mux.c + sort.c + ghost bay in one propagation: the rows show sort(values) of the FINAL "
+                "state of the instant (a stale intermediate tri consumed by the sort module is a violation); the write order itself (views propagated in "
+                "channel-index order, all holding the new thread's values first) is checked on the real model_cpu.c / track.c / mux.c with the real cpu_spec.  "
+                "Reported, not claimed: TT_GAP (task type alone toggling null/non-null "
                 "under an unchanged Task-body subsystem is not re-selected by mux0; informational obligation + end-to-end ovniemu -b "
                 "run of test/emu/nosv/pause.c).  Not covered: end-to-end -b runs, the real bay.c (C06-B), PRV emission (C13).  "
-                "Trusted: cbmc 6.11 + SAT back end, goto-cc, stable-qsort model, ghost bay c20_ghost_bay.h, typed calloc pools."),
+                "Trusted: cbmc 6.11 + SAT back end, goto-cc, stable-qsort model, ghost bay c20_ghost_bay.h, typed calloc pools, "
+                "union chan_data declared as a struct (all channels are CHAN_SINGLE; c20_common.h)."),
     technique=("bounded symbolic execution of the real C units with CBMC (SAT), inductive steps from concrete pointer topologies, "
                "control/data case split for the muxes, unwinding assertions, native ASan/UBSan replay of counterexamples"),
 )
@@ -118,12 +124,20 @@ def obligations(tier, sc):
     # (5) the chain END TO END for one event in which the running thread of the CPU changes: views -> mux0 -> tr -> mux1 -> tri ->
     # sort input -> rows, the three views written in the order of the REAL enum <model>_chan (= the order in which the CPU
     # tracking muxes, attached to the CPU's running-thread channel in channel-index order by model_cpu.c, dirty them).
+    # quick: one row (the CPU under test), split by the subsystem class of the state; thorough adds two rows (another CPU with any
+    # value), split by the (subsystem, task type, idle) class cell of the state (the sort of symbolic int64 values needs the solver).
+    cells = [(1, "ss%d" % a, ["SSCLS=%d" % a], "subsystem class %d of (0 null incl. the CPU that never ran a thread, 1 Task body, 2 other)" % a) for a in (0, 1, 2)]
+    if not quick:
+        cells += [(2, "2cpu_s%d%d%d" % (a, b, c), ["SSCLS=%d" % a, "TTCLS=%d" % b, "IDLECLS=%d" % c],
+                   "subsystem class %d, task type %s, idle class %d (0 null, 1 the compared constant, 2 other)" % (a, "set" if b else "null", c))
+                  for a in (0, 1, 2) for b in (0, 1) for c in (0, 1, 2)]
     for model, mdef in (("nosv", []), ("nanos6", ["MODEL_NANOS6"])):
-        for sscls in (0, 1, 2):
+        for ncpu, cname, cdefs, ctext in cells:
             obs.append(Obligation(
-                name="chain_to_sort_%s_ss%d" % (model, sscls), harness="C20/chain.c",
-                defines=mdef + ["NCPU=2", "SSCLS=%d" % sscls], native_cflags=NATIVE, incdirs=UT,
-                unwind=9, timeout=1200, extra=["--object-bits", "12"],
+                name="chain_to_sort_%s_%s" % (model, cname), harness="C20/chain.c",
+                defines=mdef + ["NCPU=%d" % ncpu] + cdefs, native_cflags=NATIVE, incdirs=UT,
+                unwind=9, timeout=1200 if ncpu == 1 else 2400, extra=["--object-bits", "12"],
+                solver=[] if ncpu == 1 else ["--sat-solver", "cadical"],
                 desc=dict(functions=["%s/breakdown.c: create_cpu, connect_cpu, select_tr, select_idle" % model,
                                      "mux.c: mux_init, mux_set_input, mux_set_default, mux_get_input, cb_select, cb_input, select_input",
                                      "sort.c: sort_init, sort_set_input, sort_get_output, sort_cb_input, sort_replace, cmp_int64",
@@ -131,10 +145,11 @@ def obligations(tier, sc):
                           symbolic="views before the event (channels of the old running thread) and after it (channels of the new running thread): "
                                    "subsystem in {null, Task body, other}, task type null or ANY int64, idle in {null, Progressing, other}, equal to the old "
                                    "ones or not; the CPU never ran a thread / ran one; the sort module untouched / incremental; the other CPU's value (any int64)",
-                          bound="one CPU under test + one other CPU (2 rows), one event = one bay propagation in which the CPU's running thread changes: "
+                          bound=("one CPU under test (1 row), " if ncpu == 1 else "one CPU under test + one other CPU (2 rows), ") +
+                                "one event = one bay propagation in which the CPU's running thread changes: "
                                 "all three views are written, in the order of their index in the real enum %s_chan; 'other' = one representative per use "
                                 "(k+1 before the event; 2^32+k or the unchanged k+1 written by the event)" % model,
-                          state_split="subsystem class %d of (0 null incl. the CPU that never ran a thread, 1 Task body, 2 other)" % sscls,
+                          state_split=ctext,
                           out="events of the running thread itself (subsets of the views written in the order of the model's event code: tri by select_*, "
                               "one sort step by sort_cb_input_*); states reached through TT_GAP; two CPUs changing in the same instant; "
                               "a non-null breakdown value 0 with the sort module untouched; emit phase / PRV output (C13); the real bay.c (C06)",
@@ -149,6 +164,26 @@ def obligations(tier, sc):
                                        "sort outputs are leaf channels of the ghost bay (no dirty callbacks)",
                                        "qsort = stable insertion sort model (stubs/libc_model.h) with the real cmp_int64",
                                        "calloc of mux_init / sort_init served from typed zeroed pools"])))
+
+    # (5b) the order assumed by (5), produced by the real model_cpu.c / track.c / mux.c with the real cpu_spec of the model
+    for model, mdef in (("nosv", []), ("nanos6", ["MODEL_NANOS6"])):
+        obs.append(Obligation(
+            name="view_order_%s" % model, harness="C20/view_order.c",
+            defines=mdef, native_cflags=NATIVE, incdirs=UT,
+            unwind=26, timeout=900, extra=["--object-bits", "12"],
+            desc=dict(functions=["model_cpu.c: model_cpu_create, model_cpu_connect, init_cpu, init_chan, connect_cpu",
+                                 "track.c: track_init, track_set_select, track_set_input", "mux.c: mux_init, mux_set_input, cb_select, cb_input, default_select",
+                                 "chan.c: chan_init, chan_set, chan_read, chan_flush", "extend.c", "%s/setup.c: the static tables cpu_spec / cpu_chan / cpu_track" % model],
+                      symbolic="the values (null or any int64) of all CH_MAX per-model channels of two threads",
+                      bound="one CPU, two threads, three consecutive events with concrete control: no thread -> thread 0 -> thread 1 -> no thread",
+                      out="other models' callbacks on the same running-thread channel (they do not touch this model's views); stack-typed thread channels "
+                          "(the tracking muxes only chan_read() them); more than two threads; the real bay.c (C06)",
+                      oracle="a recorder dirty callback on every view: the views are propagated once each, in the order of their channel index 0..CH_MAX-1 "
+                             "(= the enumerators of enum %s_chan); when the first one is propagated all of them already hold their final value; view i = channel i "
+                             "of the new running thread, null without one; subsystem / task type / idle are three distinct tracks" % model,
+                      assumptions=["ghost patch bay harness/C20/c20_ghost_bay.h (dirty list in order of becoming dirty, live callback lists as bay.c's utlist walk, flush at the end)",
+                                   "model_pvt_connect_cpu is a no-op (PRV wiring, C13); cpu_get_th_chan is cpu.c's accessor",
+                                   "calloc of init_cpu / init_chan / mux_init served from typed zeroed pools"])))
 
     # (4) wiring recorder: create + connect of the breakdown view on a small system
     for model, mdef in (("nosv", []), ("nanos6", ["MODEL_NANOS6"])):
